@@ -105,5 +105,33 @@ fn main() {
             }
         }
     }
+    // N = 3, every sorted list of up to 3 names over {a,b,c,d,e}: exhaustive (26^3 tuples)
+    let abc = ["a", "b", "c", "d", "e"];
+    let mut l3: Vec<Vec<&'static str>> = vec![vec![]];
+    for i in 0..5 {
+        l3.push(vec![abc[i]]);
+        for j in i + 1..5 {
+            l3.push(vec![abc[i], abc[j]]);
+            for k in j + 1..5 {
+                l3.push(vec![abc[i], abc[j], abc[k]]);
+            }
+        }
+    }
+    for a in &l3 {
+        for b in &l3 {
+            for c in &l3 {
+                let t = [a.clone(), b.clone(), c.clone()];
+                let d = disjoint(&t);
+                let ok = call([&a[..], &b[..], &c[..]]);
+                n += 1;
+                if d && !ok {
+                    report(&t, ok, "returns (no shared name)");
+                }
+                if !d && ok {
+                    report(&t, ok, "panics (a name is shared)");
+                }
+            }
+        }
+    }
     println!("NO-COUNTEREXAMPLE tuples_tried={}", n);
 }
